@@ -117,6 +117,34 @@ impl Ctx {
 			self.samples.push((ord, text()));
 		}
 	}
+	/// merge a scratch accumulator (used when a case is judged against more than one admissible reference)
+	pub fn absorb(&mut self, o: Ctx) {
+		self.evals += o.evals;
+		self.nontrivial.extend(o.nontrivial);
+		self.nontrivial_extra += o.nontrivial_extra;
+		self.states.extend(o.states);
+		self.transitions += o.transitions;
+		self.traces += o.traces;
+		self.schedules += o.schedules;
+		self.outcomes.extend(o.outcomes);
+		for (k, v) in o.counters {
+			*self.counters.entry(k).or_insert(0) += v;
+		}
+		for (sig, n) in o.fail_counts {
+			*self.fail_counts.entry(sig).or_insert(0) += n;
+		}
+		for f in o.failures {
+			let stored = self.failures.iter().filter(|g| g.sig == f.sig).count() as u64;
+			if stored < MAX_STORED_PER_SIG {
+				self.failures.push(Failure { sig: f.sig, case: self.cur_case, detail: f.detail });
+			}
+		}
+		for smp in o.samples {
+			if self.samples.len() < 12 {
+				self.samples.push(smp);
+			}
+		}
+	}
 	pub fn total_failures(&self) -> u64 {
 		self.fail_counts.values().sum()
 	}
